@@ -301,6 +301,7 @@ void c02_body(Tape& t, Ctx& ctx, SplineCase<D>& c, bool enumerated) {
     gen_durations(t, old.N, wellscaled_ratio(S), old.T, &old.sigma, &old.ratio, &old.dur_shape, &old.shape);
     old.t0 = 0;
     gen_data(t, old);
+    if (t.chance(1, 3)) old = extend_case(t, c, old.N - N);   // the new problem is a bit-equal prefix of the larger one (trajectory truncated)
     sp = Spline(old.T, old.P, old.t0, old.bc);
     if (t.flag()) sp.update(c.T, c.P, c.t0, c.bc); else sp.update(c.time_points(), c.P, c.bc);
   }
@@ -596,11 +597,12 @@ void c18_case(Tape& t, Ctx& ctx) {
   else {
     SplineCase<D> old = c, alt = c;
     gen_data(t, alt, false);
-    int what = t.range(0, 3);
-    if (what == 0) old.bc = alt.bc;
+    int what = t.range(0, 4);
+    if (what == 4) old = extend_case(t, c, 1 + t.range(0, 2));   // truncation: the durations and waypoints kept are bit-equal
+    else if (what == 0) old.bc = alt.bc;
     else if (what == 1) { bool e = t.flag(); int m = t.range(1, 3); old.bc_field(e, m) = alt.bc_field(e, m); if (old.bc_field(e, m) == c.bc_field(e, m)) old.bc_field(e, m)(0) += 1.0 / c.sigma; }
     else if (what == 2) old.P = alt.P;
-    else std::rotate(old.T.begin(), old.T.begin() + 1, old.T.end());
+    else if (what == 3) std::rotate(old.T.begin(), old.T.begin() + 1, old.T.end());
     via_points = t.flag();
     if (via_points) { sp = Spline(old.time_points(), old.P, old.bc); sp.update(c.time_points(), c.P, c.bc); }
     else { sp = Spline(old.T, old.P, old.t0, old.bc); sp.update(c.T, c.P, c.t0, c.bc); }
